@@ -2,7 +2,7 @@ SPECIFICATION Spec
 CONSTANTS
   NF = 3
   Ops = {0, 1, 2, 8, 9}
-  Lens = {1, 126, 300}
+  Lens = {2, 126, 300}
   Roles = {"server", "client"}
   MaxSize = 200
   Cuts = TRUE
